@@ -353,7 +353,8 @@ def _check(prop_id, cfg, tier, seed, tmp, start, replay_file):
 def setup():
     ok = True
     env = go_env()
-    r = run([GO, "build", "./..."], cwd=HARNESS, env=env)
+    # property packages keep shared helpers in _test.go files: they are compiled by `go test -c` below
+    r = run([GO, "build", "./cmd/...", "./internal/..."], cwd=HARNESS, env=env)
     ok = ok and r.returncode == 0
     for pid, cfg in sorted(PROPS.items()):
         if not os.path.isdir(os.path.join(HARNESS, "props", pid.lower())):
